@@ -80,7 +80,12 @@ impl StreamingQueryExecutor {
             self.engine.extract_column_predicates(sql).await,
         ) {
             (Ok(time_range), Ok(predicates)) => (time_range, predicates),
-            (Err(e), _) | (_, Err(e)) if is_table_not_found_error(&e) => {
+            // The placeholder table only knows the built-in default schema: a statement that
+            // does not plan against it (other labels, other timestamp type) must be planned
+            // against the real chunks before it is rejected.
+            (Err(e), _) | (_, Err(e))
+                if is_table_not_found_error(&e) || self.engine.metrics_table_is_placeholder() =>
+            {
                 let bootstrap_chunks = self.metadata.list_chunks().await?;
                 let bootstrap_paths: Vec<String> = bootstrap_chunks
                     .iter()
